@@ -28,6 +28,7 @@ EXPLANATION = (
     ' (E5) signed composition vectors never pass through Counter arithmetic; (E6) carbon totals are sums over every component; (E7) the count memo cannot outlive the object that fixes its other inputs; (E8) if a function of the decompose chain is memoised, no receiver anywhere in the package mutates the dictionary it gets; E1 also requires a directly indexed table to cover Z=1..118 and accepts constant keys under `atomic number == n`; E3 accepts a per-atom charge sum only when it runs for every atom of the loop.'
     ' (E11) the validator decomposes, compares and counts carbon on the rows it labels (shared with C01-R2); (E12) a side is parsed as a whole before its fragments are counted one by one.'
     " (E13) the per-fragment carbon count tests every atom by element (symbol / atomic number), never by a bare-symbol SMARTS. (E14) the comparator's functions do not edit the compositions they are given. (E15) reaction text is split at the whole separator, arguments folded under parameter defaults."
+    ' (E16) a re-labelled both-sided difference is the given vector or its complete negation (shared with C08-D7). (E17) a value that may be a data-frame column is iterated, never subscripted with a positional loop counter.'
 )
 ASSUMPTIONS = [
     "RDKit's AddHs/GetAtoms/GetFormalCharge/GetSymbol compute what their names say",
